@@ -1,4 +1,5 @@
 """Public surface for sidecar modules."""
+from .sorts import ANY
 from .sorts import (INT, NAT, BOOL, REAL, STR, NONE, Opaque, SeqOf, SetOf, MapOf, Ctor,
                     Union as _Union, Opt as _Opt,
                     TupleOf, FuncSort, ADTVal, Sort, OutsideSubset)
